@@ -12,7 +12,7 @@ from mdmc.refs import url_ref
 
 ID = "C10"
 TITLE = "Reported network indicators are well-formed and normalised"
-STREAM_FAMS = ["net", "mix", "winpath", "kw", "ctx"]
+STREAM_FAMS = ["net", "mix", "winpath", "kw", "ctx", "pairs"]
 DOMAIN_CHARS = set(b"abcdefghijklmnopqrstuvwxyzABCDEFGHIJKLMNOPQRSTUVWXYZ0123456789-.")
 
 OCTETS = [b"0", b"1", b"01", b"255", b"256", b"0x1", b"1e1", b"10", b"192", b"001", b"99"]
